@@ -400,11 +400,25 @@ func (g *gen) grid(engines []string) {
 		rmw{"z", "zpersist", []string{"t:a"}},
 		rmw{"l", "lpop", []string{"t:a"}}, rmw{"l", "rpop", []string{"t:a"}}, rmw{"l", "lclear", []string{"t:a"}},
 		rmw{"l", "lexpire", []string{"t:a", "10"}}, rmw{"l", "lpersist", []string{"t:a"}})
+	// a counter command on an expired value that is not a number starts from 0 (the dead bytes do not decide the reply)
+	pres := map[int][][]string{} // own setup of a command (default: setup[t])
+	for _, v := range []string{"token", "", "1.5", "99999999999999999999"} {
+		pres[len(cmds)] = [][]string{{"set", "t:a", v}}
+		cmds = append(cmds, rmw{"k", "incr", []string{"t:a"}})
+		pres[len(cmds)] = [][]string{{"set", "t:a", v}}
+		cmds = append(cmds, rmw{"k", "incrby", []string{"t:a", "-7"}})
+	}
+	pres[len(cmds)] = [][]string{{"hset", "t:a", "f", "token"}}
+	cmds = append(cmds, rmw{"h", "hincrby", []string{"t:a", "f", "3"}})
 	base := -(guard + 100*day) * nsPerSec
 	w := func(ts int64, name string, args ...string) {
 		f := []string{strconv.FormatInt(ts, 10), name}
 		for _, a := range args {
-			f = append(f, hx(a))
+			if strings.HasPrefix(a, "~S") {
+				f = append(f, a) // resolved by the executor: -(second of the entry's timestamp) + k
+			} else {
+				f = append(f, hx(a))
+			}
 		}
 		g.emit("W", f...)
 		g.emit("X") // the oracle judges every write against the physical state before and after it
@@ -415,7 +429,11 @@ func (g *gen) grid(engines []string) {
 			g.seq, g.step = 1000000+n, 0
 			n++
 			g.emit("NEW", "compact", engines[(ci+oi)%len(engines)])
-			for _, st := range setup[c.t] {
+			pre := setup[c.t]
+			if p, ok := pres[ci]; ok {
+				pre = p
+			}
+			for _, st := range pre {
 				w(base, st[0], st[1:]...)
 			}
 			w(base+1, exp[c.t], "t:a", "10")
@@ -532,6 +550,34 @@ func (g *gen) grid(engines []string) {
 		g.emit("L")
 		g.emit("X")
 		g.observeAll()
+	}
+	// *EXPIRE with a negative duration that lands exactly on second 0 (-(second of the entry) and +-1 as controls):
+	// "a second not after the epoch is second 1" - the key is dead at once, never persistent (when = 0 means no expiry)
+	for ti, t := range types {
+		for ki, k := range []string{"~S0", "~S-1", "~S1", "~S2"} {
+			for pi, pol := range []string{"compact", "local"} {
+				g.seq, g.step = 1000000+n, 0
+				n++
+				g.emit("NEW", pol, engines[(ti+ki+pi)%len(engines)])
+				g.policy = pol
+				for _, st := range setup[t] {
+					w(base, st[0], st[1:]...)
+				}
+				w(base+nsPerSec, exp[t], "t:a", k)
+				g.emit("O", t, hx("t:a"))
+				g.emit("A", strconv.FormatInt(base+nsPerSec, 10), t, hx("t:a"))
+				g.emit("Q")
+				if pol == "local" {
+					g.observeAll()
+					g.emit("L")
+					g.emit("X")
+					g.observeAll()
+				} else {
+					w(base+2*nsPerSec, exp[t], "t:a", "100")
+					g.emit("O", t, hx("t:a"))
+				}
+			}
+		}
 	}
 	// compaction-filter probes on both sides of the lazy threshold
 	for _, eng := range engines {
